@@ -47,6 +47,8 @@ type Tape struct {
 	st [nStreams]stream
 	// Override, when set, replaces the generated fault plan (fault-position sweep).
 	Override *FaultOverride
+	// More: further overridden faults (subset enumeration of Close failures)
+	More []FaultOverride
 }
 
 // FaultOverride: fail exactly the N-th invocation of registration Reg.
